@@ -331,6 +331,7 @@ fn run_case(seed: u64, idx: usize, orphan_leg: bool, background_leg: bool, thoro
     let mut model = Model::default();
     // last overwritten / deleted version of each id, for realistic stale pokes
     let mut prev: std::collections::BTreeMap<u64, Doc> = Default::default();
+    let mut versions: std::collections::BTreeMap<u64, Vec<Doc>> = Default::default();
     let mut history: Vec<Value> = Vec::new();
     let mut kinds = std::collections::BTreeSet::new();
     // ids for which the harness planted a mirror without canonical record (orphan leg only)
@@ -351,6 +352,14 @@ fn run_case(seed: u64, idx: usize, orphan_leg: bool, background_leg: bool, thoro
     }
 
     for step_no in 0..case.len {
+        // every version the model ever held, per id (the background drain race can resurrect ANY earlier
+        // version that was still mirrored when the drain started, not only the last one)
+        for (id, d) in model.docs.iter() {
+            let v = versions.entry(*id).or_default();
+            if v.last() != Some(d) {
+                v.push(d.clone());
+            }
+        }
         let step = gen_step(&mut rng, &case, &g, &model, &prev);
         history.push(step.to_json());
         kinds.insert(step.kind());
@@ -620,9 +629,10 @@ fn run_case(seed: u64, idx: usize, orphan_leg: bool, background_leg: bool, thoro
                     // just-deleted version (same root cause as the orphan-mirror finding)
                     let resurrected_prev = case.background
                         && exp.is_none()
-                        && prev.get(id).map(|d| {
-                            engine.cold_tier().fetch_document(*id).map(|v| bits(&v)) == Some(d.bits.clone())
-                                && engine.cold_tier().fetch_metadata(*id).map(|m| from_hm(&m)) == Some(d.meta.clone())
+                        && versions.get(id).map(|vs| {
+                            let cold = engine.cold_tier().fetch_document(*id).map(|v| bits(&v));
+                            let cmeta = engine.cold_tier().fetch_metadata(*id).map(|m| from_hm(&m));
+                            vs.iter().any(|d| cold == Some(d.bits.clone()) && cmeta == Some(d.meta.clone()))
                         }) == Some(true);
                     let sig = if case.orphan_pokes && planted.contains(id) && exp.is_none() {
                         "drain-repair-resurrects-orphan-mirror".to_string()
